@@ -330,11 +330,12 @@ def run(facts, tr, rep):
                     rep.saw(ch)
                     cg = graph(ch)
                     stat = [x for x in cg.calls() if x.name == "status"]
-                    fcall = [x for x in cg.calls() if x.def_ in ("core::ops::function::Fn::call", "core::ops::function::FnMut::call_mut")]
+                    fcall = [x for x in cg.calls() if x.def_ in ("core::ops::function::Fn::call", "core::ops::function::FnMut::call_mut")
+                             or x.fn is None]          # (a captured closure, or a plain `fn(&HealthStatus) -> bool` pointer)
                     if stat and fcall:
-                        arg = tr.expand(tr.operand(ch, fcall[0].args[1], fcall[0].loc))
+                        fa_ = fcall[0].args[1] if fcall[0].fn is not None and len(fcall[0].args) > 1 else (fcall[0].args[0] if fcall[0].args else None)
+                        arg = tr.expand(tr.operand(ch, fa_, fcall[0].loc)) if fa_ is not None else ("unknown",)
                         okf = any(x == ("call", ch.crate.name, ch.def_, stat[0].bb) for x in tr.walk(arg, limit=30))
-                        callee = tr.expand(tr.operand(ch, fcall[0].args[0], fcall[0].loc), upvars=True, params=True)
         rep.ob("C18.SELECT", skey(w, "filter"), okf, filt[0].where() if filt else "-",
                "candidates are the contexts whose status() satisfies the caller's predicate" if okf else
                "candidates are not obtained by applying the caller's predicate to ctx.status()")
@@ -346,6 +347,20 @@ def run(facts, tr, rep):
             sw = gw.switch(e.target)
             if sw is not None and sw.kind == "bool":
                 oke = all(gw.edge_dominates((sw.bb, sw.variants["false"]), s.bb) for s in sel) and bool(sel)
+        if not oke and sel:
+            # ... or the strategy's own select() answers None for an empty list before it touches the cursor / the generator
+            for d_ in sel[0].targets_def():
+                sb_ = facts.bodies.get(d_)
+                if sb_ is None:
+                    continue
+                gsb = graph(sb_)
+                for e2 in [c for c in gsb.calls() if c.name == "is_empty"]:
+                    sw2 = gsb.switch(e2.target)
+                    if sw2 is None or sw2.kind != "bool":
+                        continue
+                    effects = [c.bb for c in gsb.calls() if atomic_method(c) or "rand" in (c.def_ or "") or c.def_ in ("core::ops::function::Fn::call",)]
+                    oke = oke or (all(gsb.edge_dominates((sw2.bb, sw2.variants["false"]), x) for x in effects) and gsb.node_dominates(e2.bb, sw2.bb)
+                                  and peel(tr.expand(tr.operand(sb_, e2.args[0], e2.loc)))[0] in ("param", "deref"))
         rep.ob("C18.SELECT", skey(w, "empty-none"), oke, emp[0].where() if emp else "-",
                "with no eligible resource None is returned before any selection" if oke else "selection can run on an empty candidate list")
         # the returned value comes from the candidate vector
@@ -379,6 +394,29 @@ def run(facts, tr, rep):
                     if c.name == "eq" and c.trait == "core::cmp::PartialEq":
                         rhs = peel(tr.expand(tr.operand(cl, c.args[1], c.loc)))
                         ok = ok or _is_variant(tr, rhs, "Healthy") or _is_variant(tr, peel(tr.expand(tr.operand(cl, c.args[0], c.loc))), "Healthy")
+        if not ok:
+            # the predicate handed over as a function item (`self.pick_where(HealthStatus::is_usable)`)
+            for c in graph(pb).calls():
+                for a_ in c.args:
+                    nd_ = peel(tr.expand(tr.operand(pb, a_, c.loc)))        # (a function item coerced to a `fn` pointer)
+                    fi = {"def": nd_[1], "name": nd_[1].split("::")[-1]} if nd_[0] == "fnconst" else None
+                    if not fi:
+                        continue
+                    if want == "is_usable" and fi.get("name") == "is_usable":
+                        ok = True
+                    if want != "is_usable":
+                        fb_ = facts.bodies.get(fi.get("def"))
+                        if fb_ is not None and fb_.local_ty(0)["s"] == "bool":
+                            rep.saw(fb_)
+                            # true exactly for Healthy: every `true` answer sits under the Healthy edge of a match on self
+                            gfb = graph(fb_)
+                            trues = [(i, j) for (i, j, nd) in ret_assigns(tr, fb_) for lf in leaves(nd) if peel(lf)[0] == "const" and peel(lf)[1] == "true"]
+                            eqs = [x for x in gfb.calls() if x.name == "eq" and x.trait == "core::cmp::PartialEq"]
+                            if trues and all(any(e["kind"] == "enum" and e["label"] == "Healthy" for e in dominating_edges(tr, fb_, i)) for (i, j) in trues):
+                                ok = True
+                            for x in eqs:
+                                if any(_is_variant(tr, peel(tr.expand(tr.operand(fb_, x.args[k], x.loc))), "Healthy") for k in (0, 1)):
+                                    ok = True
         rep.ob("C18.SELECT", skey(pb, "predicate"), ok, "%s:%d" % (pb.span["file"], pb.span["line"]),
                "%s filters with %s" % (nm, "status == Healthy" if want != "is_usable" else "status.is_usable()") if ok else
                "%s does not filter with %s" % (nm, "status == Healthy" if want != "is_usable" else "is_usable()"))
@@ -438,11 +476,18 @@ def run(facts, tr, rep):
                     if s["k"] == "assign" and s["rv"]["k"] == "binop" and s["rv"]["op"] == "Rem":
                         a = peel(tr.expand(tr.operand(sbody, s["rv"]["a"], (i, j))))
                         bnode = peel(tr.expand(tr.operand(sbody, s["rv"]["b"], (i, j))))
-                        if a == V and bnode[0] == "call" and tr.call_of(bnode).name == "len":
-                            # guarded by !is_empty()
+                        if a == V and bnode[0] == "call" and tr.call_of(bnode).name in ("len", "count"):
+                            # guarded by !is_empty() / by count != 0
                             for e in dominating_edges(tr, sbody, i):
                                 if e["kind"] == "bool" and e["label"] == "false" and e["node"][0] == "call" and tr.call_of(e["node"]).name == "is_empty":
                                     idx_ok = True
+                                if e["kind"] == "bool":
+                                    cm = cmp_on_edge(tr, e)
+                                    if cm and ((cm[0] in ("Ne", "Gt") and peel(cm[1]) == bnode and peel(cm[2])[0] == "const" and peel(cm[2])[3] == "0") or
+                                               (cm[0] in ("Ne", "Lt") and peel(cm[2]) == bnode and peel(cm[1])[0] == "const" and peel(cm[1])[3] == "0")):
+                                        idx_ok = True
+                                if e["kind"] == "int" and peel(e["node"]) == bnode and e["label"] == "otherwise":
+                                    idx_ok = True          # `match n { 0 => None, n => .. }`
         rep.ob("C18.CURSOR", skey(sbody, "cursor-index"), idx_ok, rmw[0].where() if rmw else "-",
                "the eligible list is indexed by cursor % len under !is_empty()" if idx_ok else "the round-robin index is not cursor % len(eligible) under a non-empty guard")
     # ---------------------------------------------------------------- SHARE
